@@ -347,6 +347,72 @@ class CachedEvaluationMapper(CachedMapper, EvaluationMapper):
             return result""",
      "CSE cache slot is reserved before the child is computed: a raise in the environment "
      "leaves None cached for the wrapper"),
+    # ---------------- C17
+    ("c17-stale-hash-travels", "C17", PRIM,
+     [("""            return {attr_tuple}
+
+        cls.__getstate__ = {cls.__name__}_getstate""",
+       """            return {attr_tuple} + (getattr(self, "_hash_value", None),)
+
+        cls.__getstate__ = {cls.__name__}_getstate"""),
+      ("""            for name, value in zip({fld_name_tuple}, state):
+                object.__setattr__(self, name, value)
+
+        cls.__setstate__ = {cls.__name__}_setstate""",
+       """            for name, value in zip({fld_name_tuple}, state):
+                object.__setattr__(self, name, value)
+            if state[-1:] and len(state) > len({fld_name_tuple}) and state[-1] is not None:
+                object.__setattr__(self, "_hash_value", state[-1])
+
+        cls.__setstate__ = {cls.__name__}_setstate""")], None,
+     "the cached hash is pickled along and restored: wrong in a process with another hash "
+     "seed, but only if the producer had hashed the object before dumping"),
+    ("c17-legacy-default-pickling", "C17", PRIM,
+     [("""    def __getstate__(self) -> tuple[Any]:
+        return self.__getinitargs__()
+""", """    def __getstate__(self) -> tuple[Any]:
+        return dict(self.__dict__)
+"""), ("""        assert len(self.init_arg_names) == len(state), type(self)
+        for name, value in zip(self.init_arg_names, state):
+            object.__setattr__(self, name, value)""",
+       """        for name, value in state.items():
+            object.__setattr__(self, name, value)""")], None,
+     "legacy subclasses pickle their whole __dict__, cached hash included"),
+    ("c17-undecorated-getstate-path-dropped", "C17", PRIM,
+     """            if "_is_expr_dataclass" not in self.__class__.__dict__:
+                from pymbolic.primitives import Expression
+                return Expression.__getstate__(self)
+
+            return {attr_tuple}""",
+     """            return {attr_tuple}""",
+     "undecorated subclasses of dataclass nodes lose their extra init args when pickled"),
+    ("c17-setstate-inside-assert", "C17", PRIM,
+     """            for name, value in zip({fld_name_tuple}, state):
+                object.__setattr__(self, name, value)
+
+        cls.__setstate__ = {cls.__name__}_setstate""",
+     """            for name, value in zip({fld_name_tuple}, state):
+                assert object.__setattr__(self, name, value) is None
+
+        cls.__setstate__ = {cls.__name__}_setstate""",
+     "state is restored inside an assert: objects unpickled by a -O consumer have no fields"),
+    ("c17-digest-uses-hash-of-name", "C17", PH,
+     '        self.key_hash.update(expr.name.encode("utf8"))',
+     '        self.key_hash.update(str(hash(expr.name)).encode("utf8"))',
+     "persistent hash of a variable uses hash(name): differs per hash seed"),
+    ("c17-digest-uses-set-repr", "C17", PH,
+     '        self.key_hash.update(type(expr).__name__.encode("utf8"))',
+     '        self.key_hash.update(repr({type(expr).__name__, "node", "kind"}).encode("utf8"))',
+     "persistent hash mixes in the repr of a set of strings: order depends on the hash seed"),
+    ("c17-compiled-getstate-drops-vars", "C17", COMP,
+     "        return self._Expression, self._Variables",
+     "        return self._Expression, []",
+     "CompiledExpression.__getstate__ drops the listed variables: argument order changes "
+     "after a round trip"),
+    ("c17-compile-orders-by-set-iteration", "C17", COMP,
+     "        used_variables.sort()\n",
+     "        pass\n",
+     "unlisted free variables are taken in set-iteration order: depends on the hash seed"),
 ]
 
 
